@@ -7,7 +7,9 @@ PROPS = {
         "modules": ["SV.Props.C19"],
         "runs": [{"component": "shard", "thorough_seeds": 2}, {"component": "persist", "thorough_seeds": 1, "history_filter": "!shards=0"}],
         "rule": "histories of masks/id/onto/maskseg operations; distinct = distinct (operation kind, output) pairs observed on the implementation; "
-                "maskseg scans EVERY shard count of its interval on the float code and compares the run-length encoding with the model's (sound by mask_segments_sound)",
+                "maskseg scans EVERY shard count of its interval on the float code and compares the run-length encoding with the model's (sound by mask_segments_sound); "
+                "at random large shard counts the big-endian keys of the largest id and of the ids around the mask boundary are witnesses for 'every id is produced'; "
+                "the sharded-persister histories of the persist component run here too (single-map clauses on 2/3/5 shards count for C19)",
         "exhaustive": "quick: all n<=64 (masks, onto, all 1-byte keys stride<=7, sampled 2-byte keys), masks of every n in [2,2^22] and +-2048 around 2^23..2^31; "
                       "thorough: all n<=512, all 2-byte keys for n<=40, masks of every n in [2,2^31-1]",
         "assumptions": [
@@ -19,7 +21,7 @@ PROPS = {
         "theorems": ["SV.Props.C01.wrapper_refines_pure_session", "SV.Props.C01.nonce_run_for_any_session_oracle", "SV.Props.C01.each_account_looked_up_once", "SV.Props.C01.source_detectors_are_the_models", "SV.Props.C01.nonce_run_of_every_reachable_pool", "SV.Props.C01.nonce_run", "SV.Props.C01.nonce_run_select", "SV.Props.C01.reachable_lists_sorted"],
         "modules": ["SV.Props.C01"],
         "runs": [{"component": "txcache", "thorough_seeds": 3, "compare_kinds": ["selb"]}],
-        "rule": "random add/rm/clear/sel histories over a small transaction alphabet (hash determines content) under boundary-biased configurations, plus directed eviction storms; distinct = distinct (operation kind, canonical output incl. full API dump) pairs observed on the implementation; the model/implementation diff is restricted per property (C01-C03: selections from the observed lists; C04-C06: add/rm/clear of the histories with eviction disabled - the pool-wide clauses of C05/C06 are decided on the eviction histories by the Go oracles, whose verdict does not depend on WHICH transactions eviction takes; C07: add/rm/clear of all histories)",
+        "rule": "random add/rm/clear/sel histories over a small transaction alphabet (hash determines content) under boundary-biased configurations, plus directed eviction storms; distinct = distinct (operation kind, canonical output incl. full API dump) pairs observed on the implementation; the model/implementation diff is restricted per property (C01-C03: selections from the observed lists; C04-C06: add/rm/clear of the histories with eviction disabled - the pool-wide clauses of C05/C06 are decided on the eviction histories by the Go oracles, whose verdict does not depend on WHICH transactions eviction takes; C07: add/rm/clear of all histories) Also: directed histories (partial eviction then growth to the byte limit; selection around an eviction by another sender; insertion after a removed late nonce), caller-declared sizes at and beyond 2^32, and every selection is judged against the hash index as well (depends only on pool contents).",
         "assumptions": [
             "Go container/heap, container/list and Go maps are modelled (extract-best over a list, lists, association lists); fees/values/balances are non-negative big integers; hash determines content",
             "the selection time budget is modelled by an arbitrary stop oracle consulted where the code reads the clock",
@@ -29,7 +31,7 @@ PROPS = {
         "theorems": ["SV.Props.C02.balances_cover_for_any_session_oracle", "SV.Props.C02.source_balance_test_is_the_models", "SV.Props.C02.source_balance_test_reads", "SV.Props.C02.source_loop_exits_are_the_models", "SV.Props.C02.constraints_of_every_reachable_pool", "SV.Props.C02.distinct_members", "SV.Props.C02.count_bound", "SV.Props.C02.gas_sum_and_budget", "SV.Props.C02.no_bad_guard", "SV.Props.C02.balances_cover", "SV.Props.C02.current_does_not_wrap", "SV.Props.C02.legacy_gas_counterexample"],
         "modules": ["SV.Props.C02"],
         "runs": [{"component": "txcache", "thorough_seeds": 3, "compare_kinds": ["selb"]}],
-        "rule": "random add/rm/clear/sel histories over a small transaction alphabet (hash determines content) under boundary-biased configurations, plus directed eviction storms; distinct = distinct (operation kind, canonical output incl. full API dump) pairs observed on the implementation; the model/implementation diff is restricted per property (C01-C03: selections from the observed lists; C04-C06: add/rm/clear of the histories with eviction disabled - the pool-wide clauses of C05/C06 are decided on the eviction histories by the Go oracles, whose verdict does not depend on WHICH transactions eviction takes; C07: add/rm/clear of all histories)",
+        "rule": "random add/rm/clear/sel histories over a small transaction alphabet (hash determines content) under boundary-biased configurations, plus directed eviction storms; distinct = distinct (operation kind, canonical output incl. full API dump) pairs observed on the implementation; the model/implementation diff is restricted per property (C01-C03: selections from the observed lists; C04-C06: add/rm/clear of the histories with eviction disabled - the pool-wide clauses of C05/C06 are decided on the eviction histories by the Go oracles, whose verdict does not depend on WHICH transactions eviction takes; C07: add/rm/clear of all histories) Also: directed histories (partial eviction then growth to the byte limit; selection around an eviction by another sender; insertion after a removed late nonce), caller-declared sizes at and beyond 2^32, and every selection is judged against the hash index as well (depends only on pool contents).",
         "assumptions": [
             "Go container/heap, container/list and Go maps are modelled (extract-best over a list, lists, association lists); fees/values/balances are non-negative big integers; hash determines content",
             "the selection time budget is modelled by an arbitrary stop oracle consulted where the code reads the clock",
@@ -39,7 +41,7 @@ PROPS = {
         "theorems": ["SV.Props.C03.source_price_per_unit_is_floor_saturated", "SV.Props.C03.source_comparator_is_the_models", "SV.Props.C03.source_comparator_reads", "SV.Props.C03.greedy_on_every_reachable_pool", "SV.Props.C03.ppu_is_floor", "SV.Props.C03.comparator_strict_total", "SV.Props.C03.pops_the_best", "SV.Props.C03.order_independent", "SV.Props.C03.stricter_limits_give_prefix", "SV.Props.C03.equals_documented_greedy_procedure", "SV.Props.C03.container_heap_refines_extract_best", "SV.Props.C03.repeatable", "SV.Props.C03.legacy_ppu_truncates"],
         "modules": ["SV.Props.C03"],
         "runs": [{"component": "txcache", "thorough_seeds": 3, "compare_kinds": ["selb"]}],
-        "rule": "random add/rm/clear/sel histories over a small transaction alphabet (hash determines content) under boundary-biased configurations, plus directed eviction storms; distinct = distinct (operation kind, canonical output incl. full API dump) pairs observed on the implementation; the model/implementation diff is restricted per property (C01-C03: selections from the observed lists; C04-C06: add/rm/clear of the histories with eviction disabled - the pool-wide clauses of C05/C06 are decided on the eviction histories by the Go oracles, whose verdict does not depend on WHICH transactions eviction takes; C07: add/rm/clear of all histories)",
+        "rule": "random add/rm/clear/sel histories over a small transaction alphabet (hash determines content) under boundary-biased configurations, plus directed eviction storms; distinct = distinct (operation kind, canonical output incl. full API dump) pairs observed on the implementation; the model/implementation diff is restricted per property (C01-C03: selections from the observed lists; C04-C06: add/rm/clear of the histories with eviction disabled - the pool-wide clauses of C05/C06 are decided on the eviction histories by the Go oracles, whose verdict does not depend on WHICH transactions eviction takes; C07: add/rm/clear of all histories) Also: directed histories (partial eviction then growth to the byte limit; selection around an eviction by another sender; insertion after a removed late nonce), caller-declared sizes at and beyond 2^32, and every selection is judged against the hash index as well (depends only on pool contents).",
         "assumptions": [
             "Go container/heap, container/list and Go maps are modelled (extract-best over a list, lists, association lists); fees/values/balances are non-negative big integers; hash determines content",
             "the selection time budget is modelled by an arbitrary stop oracle consulted where the code reads the clock",
@@ -49,7 +51,7 @@ PROPS = {
         "theorems": ["SV.Props.C04.source_sender_limit_test_is_the_models", "SV.Props.C04.lists_equal_reference_after_any_history", "SV.Props.C04.hash_index_equals_reference_after_any_history", "SV.Props.C04.insert_is_ordered_insert", "SV.Props.C04.lists_sorted_add", "SV.Props.C04.lists_sorted_remove", "SV.Props.C04.sorted_has_no_duplicates", "SV.Props.C04.add_semantics", "SV.Props.C04.add_leaves_other_senders", "SV.Props.C04.remove_semantics", "SV.Props.C04.lookups_agree", "SV.Props.C04.trim_partial", "SV.Props.C04.trim_incomplete_F3", "SV.Props.C04.source_insertion_walk_is_the_models", "SV.Props.C04.source_lower_nonce_removal_is_the_models", "SV.Props.C04.go_list_addTx_is_the_models", "SV.Props.C04.go_list_lower_nonce_removal_is_the_models", "SV.Props.C04.go_list_getTxs_is_the_list"],
         "modules": ["SV.Props.C04"],
         "runs": [{"component": "txcache", "thorough_seeds": 3, "compare_kinds": ["add", "rm", "clear"], "history_filter": "evict=0"}],
-        "rule": "random add/rm/clear/sel histories over a small transaction alphabet (hash determines content) under boundary-biased configurations, plus directed eviction storms; distinct = distinct (operation kind, canonical output incl. full API dump) pairs observed on the implementation; the model/implementation diff is restricted per property (C01-C03: selections from the observed lists; C04-C06: add/rm/clear of the histories with eviction disabled - the pool-wide clauses of C05/C06 are decided on the eviction histories by the Go oracles, whose verdict does not depend on WHICH transactions eviction takes; C07: add/rm/clear of all histories)",
+        "rule": "random add/rm/clear/sel histories over a small transaction alphabet (hash determines content) under boundary-biased configurations, plus directed eviction storms; distinct = distinct (operation kind, canonical output incl. full API dump) pairs observed on the implementation; the model/implementation diff is restricted per property (C01-C03: selections from the observed lists; C04-C06: add/rm/clear of the histories with eviction disabled - the pool-wide clauses of C05/C06 are decided on the eviction histories by the Go oracles, whose verdict does not depend on WHICH transactions eviction takes; C07: add/rm/clear of all histories) Also: directed histories (partial eviction then growth to the byte limit; selection around an eviction by another sender; insertion after a removed late nonce), caller-declared sizes at and beyond 2^32, and every selection is judged against the hash index as well (depends only on pool contents).",
         "assumptions": [
             "Go container/heap, container/list and Go maps are modelled (extract-best over a list, lists, association lists); fees/values/balances are non-negative big integers; hash determines content",
             "the selection time budget is modelled by an arbitrary stop oracle consulted where the code reads the clock",
@@ -59,7 +61,7 @@ PROPS = {
         "theorems": ["SV.Props.C05.invariant_of_every_reachable_pool", "SV.Props.C05.step_add", "SV.Props.C05.step_remove", "SV.Props.C05.step_clear", "SV.Props.C05.step_evict", "SV.Props.C05.step_threshold", "SV.Props.C05.emptied_pool_reports_zero", "SV.Props.C05.no_ghost", "SV.Props.C05.legacy_F4", "SV.Props.C05.legacy_F5", "SV.Props.C05.legacy_F6"],
         "modules": ["SV.Props.C05"],
         "runs": [{"component": "txcache", "thorough_seeds": 3, "compare_kinds": ["add", "rm", "clear"], "history_filter": "evict=0"}],
-        "rule": "random add/rm/clear/sel histories over a small transaction alphabet (hash determines content) under boundary-biased configurations, plus directed eviction storms; distinct = distinct (operation kind, canonical output incl. full API dump) pairs observed on the implementation; the model/implementation diff is restricted per property (C01-C03: selections from the observed lists; C04-C06: add/rm/clear of the histories with eviction disabled - the pool-wide clauses of C05/C06 are decided on the eviction histories by the Go oracles, whose verdict does not depend on WHICH transactions eviction takes; C07: add/rm/clear of all histories)",
+        "rule": "random add/rm/clear/sel histories over a small transaction alphabet (hash determines content) under boundary-biased configurations, plus directed eviction storms; distinct = distinct (operation kind, canonical output incl. full API dump) pairs observed on the implementation; the model/implementation diff is restricted per property (C01-C03: selections from the observed lists; C04-C06: add/rm/clear of the histories with eviction disabled - the pool-wide clauses of C05/C06 are decided on the eviction histories by the Go oracles, whose verdict does not depend on WHICH transactions eviction takes; C07: add/rm/clear of all histories) Also: directed histories (partial eviction then growth to the byte limit; selection around an eviction by another sender; insertion after a removed late nonce), caller-declared sizes at and beyond 2^32, and every selection is judged against the hash index as well (depends only on pool contents).",
         "assumptions": [
             "Go container/heap, container/list and Go maps are modelled (extract-best over a list, lists, association lists); fees/values/balances are non-negative big integers; hash determines content",
             "the selection time budget is modelled by an arbitrary stop oracle consulted where the code reads the clock",
@@ -69,7 +71,7 @@ PROPS = {
         "theorems": ["SV.Props.C06.holds_for_every_accepted_configuration", "SV.Props.C06.source_threshold_tests_are_the_models", "SV.Props.C06.source_sender_limit_test_is_the_models", "SV.Props.C06.sender_count_bound", "SV.Props.C06.sender_bytes_partial", "SV.Props.C06.eviction_postcondition", "SV.Props.C06.pool_bounds_after_add", "SV.Props.C06.no_pool_wide_drop_when_disabled", "SV.Props.C06.every_reachable_sender_list_bounded", "SV.Props.C06.pool_bounds_at_every_add_of_every_history", "SV.Props.C06.eviction_of_every_reachable_pool_ends_within", "SV.Props.C06.no_history_drops_pool_wide_when_disabled", "SV.Props.C06.go_list_trim_is_trim1", "SV.Props.C06.go_list_trim_removes_at_most_one_F3"],
         "modules": ["SV.Props.C06"],
         "runs": [{"component": "txcache", "thorough_seeds": 3, "compare_kinds": ["add", "rm", "clear"], "history_filter": "evict=0"}],
-        "rule": "random add/rm/clear/sel histories over a small transaction alphabet (hash determines content) under boundary-biased configurations, plus directed eviction storms; distinct = distinct (operation kind, canonical output incl. full API dump) pairs observed on the implementation; the model/implementation diff is restricted per property (C01-C03: selections from the observed lists; C04-C06: add/rm/clear of the histories with eviction disabled - the pool-wide clauses of C05/C06 are decided on the eviction histories by the Go oracles, whose verdict does not depend on WHICH transactions eviction takes; C07: add/rm/clear of all histories)",
+        "rule": "random add/rm/clear/sel histories over a small transaction alphabet (hash determines content) under boundary-biased configurations, plus directed eviction storms; distinct = distinct (operation kind, canonical output incl. full API dump) pairs observed on the implementation; the model/implementation diff is restricted per property (C01-C03: selections from the observed lists; C04-C06: add/rm/clear of the histories with eviction disabled - the pool-wide clauses of C05/C06 are decided on the eviction histories by the Go oracles, whose verdict does not depend on WHICH transactions eviction takes; C07: add/rm/clear of all histories) Also: directed histories (partial eviction then growth to the byte limit; selection around an eviction by another sender; insertion after a removed late nonce), caller-declared sizes at and beyond 2^32, and every selection is judged against the hash index as well (depends only on pool contents).",
         "assumptions": [
             "Go container/heap, container/list and Go maps are modelled (extract-best over a list, lists, association lists); fees/values/balances are non-negative big integers; hash determines content",
             "the selection time budget is modelled by an arbitrary stop oracle consulted where the code reads the clock",
@@ -79,7 +81,7 @@ PROPS = {
         "theorems": ["SV.Props.C07.source_threshold_tests_are_the_models", "SV.Props.C07.source_comparator_is_the_models", "SV.Props.C07.takes_least_valuable", "SV.Props.C07.batch_size", "SV.Props.C07.stops_when_within", "SV.Props.C07.noop_within_thresholds", "SV.Props.C07.loses_nonce_suffix", "SV.Props.C07.disappear_from_every_view", "SV.Props.C07.victim_independent_of_order", "SV.Props.C07.every_reachable_eviction_cuts_nonce_suffixes", "SV.Props.C07.every_reachable_eviction_noop_within", "SV.Props.C07.every_reachable_evicted_disappear_everywhere", "SV.Props.C07.every_reachable_survivor_stays_hashed", "SV.Props.C07.source_suffix_cut_is_the_models", "SV.Props.C07.go_list_suffix_cut_is_the_models"],
         "modules": ["SV.Props.C07"],
         "runs": [{"component": "txcache", "thorough_seeds": 3, "compare_kinds": ["add", "rm", "clear"]}],
-        "rule": "random add/rm/clear/sel histories over a small transaction alphabet (hash determines content) under boundary-biased configurations, plus directed eviction storms; distinct = distinct (operation kind, canonical output incl. full API dump) pairs observed on the implementation; the model/implementation diff is restricted per property (C01-C03: selections from the observed lists; C04-C06: add/rm/clear of the histories with eviction disabled - the pool-wide clauses of C05/C06 are decided on the eviction histories by the Go oracles, whose verdict does not depend on WHICH transactions eviction takes; C07: add/rm/clear of all histories)",
+        "rule": "random add/rm/clear/sel histories over a small transaction alphabet (hash determines content) under boundary-biased configurations, plus directed eviction storms; distinct = distinct (operation kind, canonical output incl. full API dump) pairs observed on the implementation; the model/implementation diff is restricted per property (C01-C03: selections from the observed lists; C04-C06: add/rm/clear of the histories with eviction disabled - the pool-wide clauses of C05/C06 are decided on the eviction histories by the Go oracles, whose verdict does not depend on WHICH transactions eviction takes; C07: add/rm/clear of all histories) Also: directed histories (partial eviction then growth to the byte limit; selection around an eviction by another sender; insertion after a removed late nonce), caller-declared sizes at and beyond 2^32, and every selection is judged against the hash index as well (depends only on pool contents).",
         "assumptions": [
             "Go container/heap, container/list and Go maps are modelled (extract-best over a list, lists, association lists); fees/values/balances are non-negative big integers; hash determines content",
             "the selection time budget is modelled by an arbitrary stop oracle consulted where the code reads the clock",
@@ -89,7 +91,7 @@ PROPS = {
         "theorems": ["SV.Props.C12.single_chunk_refines_fifo_queue", "SV.Props.C12.fifo_refusal_iff", "SV.Props.C12.cache_protects_accepted_keys", "SV.Props.C12.cache_protected_forever", "SV.Props.C12.cache_all_immune_refused", "SV.Props.C12.cache_refusal_changes_nothing", "SV.Props.C12.cache_never_overwrites", "SV.Props.C12.source_capacity_test_is_the_models", "SV.Props.C12.source_chunk_config_is_the_models", "SV.Props.C12.add_keeps_immune", "SV.Props.C12.eviction_skips_immune", "SV.Props.C12.protected_forever", "SV.Props.C12.protected_when_added", "SV.Props.C12.protected_when_immunized", "SV.Props.C12.all_immune_refused", "SV.Props.C12.refusal_changes_nothing", "SV.Props.C12.never_overwrites", "SV.Props.C12.legacy_F10"],
         "modules": ["SV.Props.C12"],
         "runs": [{"component": "immunity", "thorough_seeds": 2}],
-        "rule": "random HasOrAdd/Put/Remove/ImmunizeKeys/Clear histories over 4-12 keys through ImmunityCache and CrossTxCache, 1-16 chunks, capacities at their lower bounds, sizes 0..500; thorough adds all histories of length 5 over an 11-operation alphabet (single chunk); distinct = distinct (operation kind, canonical output incl. full dump) pairs",
+        "rule": "random HasOrAdd/Put/Remove/ImmunizeKeys/Clear histories over 4-12 keys through ImmunityCache and CrossTxCache, 1-16 chunks, capacities at their lower bounds, sizes 0..500; thorough adds all histories of length 5 over an 11-operation alphabet (single chunk); distinct = distinct (operation kind, canonical output incl. full dump) pairs Also: one ImmunizeKeys batch falling almost entirely into one chunk of a multi-chunk cache, then both chunks filled until they evict.",
         "exhaustive": "thorough: all 11^5 histories over {hoa/rm/imm x 3 keys, 2 filler adds}, one chunk, capacity 4",
         "assumptions": ["Go maps and container/list are modelled (association lists, lists); chunk routing by fnv32 is modelled exactly; item sizes are >= 0"],
     },
@@ -97,7 +99,7 @@ PROPS = {
         "theorems": ["SV.Props.C13.single_chunk_refines_fifo_queue", "SV.Props.C13.fifo_refusal_iff", "SV.Props.C13.fifo_eviction_in_batches", "SV.Props.C13.holds_for_every_accepted_configuration", "SV.Props.C13.cache_never_exceeds_max", "SV.Props.C13.cache_views_agree", "SV.Props.C13.cache_flags_truthful", "SV.Props.C13.cache_remove_withdraws_immunity", "SV.Props.C13.cache_immunize_gate_refuses_whole", "SV.Props.C13.source_capacity_test_is_the_models", "SV.Props.C13.source_chunk_config_is_the_models", "SV.Props.C13.chunk_invariant", "SV.Props.C13.flags_truthful", "SV.Props.C13.eviction_is_fifo", "SV.Props.C13.eviction_partition", "SV.Props.C13.remove_withdraws_immunity", "SV.Props.C13.immunize_gate"],
         "modules": ["SV.Props.C13"],
         "runs": [{"component": "immunity", "thorough_seeds": 2}],
-        "rule": "random HasOrAdd/Put/Remove/ImmunizeKeys/Clear histories over 4-12 keys through ImmunityCache and CrossTxCache, 1-16 chunks, capacities at their lower bounds, sizes 0..500; thorough adds all histories of length 5 over an 11-operation alphabet (single chunk); distinct = distinct (operation kind, canonical output incl. full dump) pairs",
+        "rule": "random HasOrAdd/Put/Remove/ImmunizeKeys/Clear histories over 4-12 keys through ImmunityCache and CrossTxCache, 1-16 chunks, capacities at their lower bounds, sizes 0..500; thorough adds all histories of length 5 over an 11-operation alphabet (single chunk); distinct = distinct (operation kind, canonical output incl. full dump) pairs Also: one ImmunizeKeys batch falling almost entirely into one chunk of a multi-chunk cache, then both chunks filled until they evict.",
         "exhaustive": "thorough: all 11^5 histories over {hoa/rm/imm x 3 keys, 2 filler adds}, one chunk, capacity 4",
         "assumptions": ["Go maps and container/list are modelled (association lists, lists); chunk routing by fnv32 is modelled exactly; item sizes are >= 0"],
     },
@@ -113,14 +115,14 @@ PROPS = {
         "theorems": ["SV.Props.C08.sharded_history_refines_map", "SV.Props.C08.batch_operations_have_the_models_effects", "SV.Props.C08.source_flush_test_is_the_models", "SV.Props.C08.get_is_logical_map", "SV.Props.C08.has_agrees_with_get", "SV.Props.C08.put_then_read", "SV.Props.C08.remove_then_read", "SV.Props.C08.flush_invisible", "SV.Props.C08.history_refines_map", "SV.Props.C08.mem_is_a_map", "SV.Props.C08.legacy_F8"],
         "modules": ["SV.Props.C08"],
         "runs": [{"component": "persist", "thorough_seeds": 2}],
-        "rule": "random Put/Remove/tick/Close+reopen/RangeKeys histories over 3-7 keys (values nil, empty, short, long) on leveldb.DB, leveldb.SerialDB, memorydb and the sharded persister over each (2,3,5 shards), MaxBatchSize 1..100, real LevelDB directories, timer flushes by real waiting (BatchDelaySeconds=1); Get/Has of every key after every operation; distinct = distinct (operation kind, full read-back) pairs",
+        "rule": "random Put/Remove/tick/Close+reopen/RangeKeys histories over 3-7 keys (values nil, empty, short, long) on leveldb.DB, leveldb.SerialDB, memorydb and the sharded persister over each (2,3,5 shards), MaxBatchSize 1..100, real LevelDB directories, timer flushes by real waiting (BatchDelaySeconds=1); Get/Has of every key after every operation; distinct = distinct (operation kind, full read-back) pairs Also: values of 4 KiB..1 MiB+ (run-length token on the line protocol), three histories with hundreds of keys (enumeration after reopen, asked before any read).",
         "assumptions": ["goleveldb contract: Write(batch) applies the batch atomically and in order, Get/Has/NewIterator read the applied writes, Close/Open preserve them", "timer flush is modelled as an explicit tick event; the harness waits BatchDelaySeconds+0.35s for it"],
     },
     "C09": {
         "theorems": ["SV.Props.C09.sharded_history_refines_map", "SV.Props.C09.sharded_reopen_preserves_map", "SV.Props.C09.sharded_range_after_reopen", "SV.Props.C09.batch_operations_have_the_models_effects", "SV.Props.C09.reopen_preserves_map", "SV.Props.C09.reopen_keeps_invariant", "SV.Props.C09.cycles", "SV.Props.C09.range_after_close"],
         "modules": ["SV.Props.C09"],
         "runs": [{"component": "persist", "thorough_seeds": 2}],
-        "rule": "random Put/Remove/tick/Close+reopen/RangeKeys histories over 3-7 keys (values nil, empty, short, long) on leveldb.DB, leveldb.SerialDB, memorydb and the sharded persister over each (2,3,5 shards), MaxBatchSize 1..100, real LevelDB directories, timer flushes by real waiting (BatchDelaySeconds=1); Get/Has of every key after every operation; distinct = distinct (operation kind, full read-back) pairs",
+        "rule": "random Put/Remove/tick/Close+reopen/RangeKeys histories over 3-7 keys (values nil, empty, short, long) on leveldb.DB, leveldb.SerialDB, memorydb and the sharded persister over each (2,3,5 shards), MaxBatchSize 1..100, real LevelDB directories, timer flushes by real waiting (BatchDelaySeconds=1); Get/Has of every key after every operation; distinct = distinct (operation kind, full read-back) pairs Also: values of 4 KiB..1 MiB+ (run-length token on the line protocol), three histories with hundreds of keys (enumeration after reopen, asked before any read).",
         "assumptions": ["goleveldb contract: Write(batch) applies the batch atomically and in order, Get/Has/NewIterator read the applied writes, Close/Open preserve them", "timer flush is modelled as an explicit tick event; the harness waits BatchDelaySeconds+0.35s for it"],
     },
     "C16": {
@@ -128,7 +130,7 @@ PROPS = {
         "modules": ["SV.Props.C16"],
         "runs": [{"component": "unit", "thorough_seeds": 2}],
         "exhaustive": "thorough: all 13^5 histories over {put ok/rejected, get ok/failing, rm ok/rejected} x 2 keys + clearcache, for the LRU, the size LRU and the FIFO cache at capacity 1 (3 x 371293 histories)",
-        "rule": 'random Put/Get/Has/Remove/ClearCache/GetBulk histories on storageUnit.Unit over every cacher the factory builds (LRU, SizeLRU, FIFOSharded) at capacities 1-6, over memorydb behind a fault-injecting wrapper (Put/Get/Remove rejected at random positions) and over real leveldb.DB / SerialDB; after every operation the injected cacher is read back (Keys/Peek) and fed to the model as the eviction outcome; distinct = distinct (operation kind, canonical output) pairs',
+        "rule": 'random Put/Get/Has/Remove/ClearCache/GetBulk histories on storageUnit.Unit over every cacher the factory builds (LRU, SizeLRU, FIFOSharded) at capacities 1-6, over memorydb behind a fault-injecting wrapper (Put/Get/Remove rejected at random positions) and over real leveldb.DB / SerialDB; after every operation the injected cacher is read back (Keys/Peek) and fed to the model as the eviction outcome; distinct = distinct (operation kind, canonical output) pairs Also: empty values (a value like any other).',
         "assumptions": ['the cacher is modelled as ANY cache that only returns what was put and not removed since (its eviction outcome is an input)', 'persister = map with a fault oracle'],
     },
     "C17": {
@@ -136,28 +138,28 @@ PROPS = {
         "modules": ["SV.Props.C17"],
         "runs": [{"component": "adapter", "thorough_seeds": 2}],
         "exhaustive": "thorough: all 13^5 histories over {put small, put large, hoa, get} x 3 keys + rm, memory tier of 2 items / 12 bytes",
-        "rule": 'random Put/Get/Has/Peek histories (one third) and histories that also use HasOrAdd/Remove/Clear/Len/Keys (two thirds) on storageCacherAdapter over the real capacityLRU (item capacities 1-4, byte capacities 1..100000, sizes 0..1000, re-puts with other sizes) and memorydb / real LevelDB; each key bound to one immutable value; distinct = distinct (operation kind, canonical output) pairs',
+        "rule": 'random Put/Get/Has/Peek histories (one third) and histories that also use HasOrAdd/Remove/Clear/Len/Keys (two thirds) on storageCacherAdapter over the real capacityLRU (item capacities 1-4, byte capacities 1..100000, sizes 0..1000, re-puts with other sizes) and memorydb / real LevelDB; each key bound to one immutable value; distinct = distinct (operation kind, canonical output) pairs Also: what Get returned is kept by the caller and re-checked after later operations.',
         "assumptions": ['values serialise to >= 1 byte (the adapter skips empty serialisations); sizes are >= 0 (negative sizes are rejected by the LRU)'],
     },
     "C20": {
         "theorems": ["SV.Props.C20.ring_refines_age_model", "SV.Props.C20.ring_cache_refines_age_model", "SV.Props.C20.ring_never_more_than_size", "SV.Props.C20.ring_just_inserted_resident", "SV.Props.C20.ring_clear_state", "SV.Props.C20.never_more_than_size", "SV.Props.C20.invariant_put", "SV.Props.C20.invariant_hasOrAdd", "SV.Props.C20.invariant_remove", "SV.Props.C20.just_inserted_resident", "SV.Props.C20.survives_guaranteed_insertions", "SV.Props.C20.slots_per_shard", "SV.Props.C20.fifo_order", "SV.Props.C20.views_agree", "SV.Props.C20.hasOrAdd_inserts_iff_absent", "SV.Props.C20.put_invokes_each_handler_once"],
         "modules": ["SV.Props.C20"],
         "runs": [{"component": "fifo", "thorough_seeds": 2}],
-        "rule": 'random Put/HasOrAdd/Get/Remove/Clear/Register/UnRegister histories on fifocache.NewShardedCache, 1-4 shards, sizes from 2 slots per shard; per-shard Keys order compared exactly with one shard; thorough adds all 12^5 histories over 4 keys (one shard, size 3); distinct = distinct (operation kind, canonical output) pairs',
+        "rule": 'random Put/HasOrAdd/Get/Remove/Clear/Register/UnRegister histories on fifocache.NewShardedCache, 1-4 shards, sizes from 2 slots per shard; per-shard Keys order compared exactly with one shard; thorough adds all 12^5 histories over 4 keys (one shard, size 3); distinct = distinct (operation kind, canonical output) pairs The residency guarantee is read as the theorem reads it (still resident after ceil(S/N)-2 further insertions).',
         "assumptions": ['multiversx/concurrent-map v0.1.4 is modelled from its source (age-ordered view of the ring); keys are non-empty'],
     },
     "C18": {
         "theorems": ["SV.Props.C18.source_expiry_test_is_the_models", "SV.Props.C18.present_at_every_query_until_span_elapsed", "SV.Props.C18.gone_after_a_sweep_past_the_span", "SV.Props.C18.upsert_never_shortens_life", "SV.Props.C18.cacher_serves_latest_put_until_expiry", "SV.Props.C18.brackets_sound_hasOrAdd", "SV.Props.C18.hasOrAdd_flags_decided_when_certain", "SV.Props.C18.verdict_sound_for_every_history", "SV.Props.C18.retained_until_span_elapsed", "SV.Props.C18.dropped_by_later_sweep", "SV.Props.C18.upsert_max_and_restart", "SV.Props.C18.add_replaces_and_restarts", "SV.Props.C18.hasOrAdd_flags", "SV.Props.C18.brackets_sound_add", "SV.Props.C18.brackets_sound_upsert", "SV.Props.C18.brackets_sound_sweep", "SV.Props.C18.verdict_sound", "SV.Props.C18.source_upsert_span_is_the_models"],
         "modules": ["SV.Props.C18"],
         "runs": [{"component": "timecache", "thorough_seeds": 2}],
-        "rule": 'histories of Add/AddWithSpan/Upsert/Put/HasOrAdd/Remove/Sweep/sleep on TimeCache, peerTimeCache and timeCacher with every call bracketed by monotonic clock readings fed to the model (two exact models bound the unknown reading: must/may); spans 40-300 ms (1 s for timeCacher); a liveness probe for the self-sweeper; distinct = distinct (operation kind, canonical output) pairs',
+        "rule": 'histories of Add/AddWithSpan/Upsert/Put/HasOrAdd/Remove/Sweep/sleep on TimeCache, peerTimeCache and timeCacher with every call bracketed by monotonic clock readings fed to the model (two exact models bound the unknown reading: must/may); spans 40-300 ms (1 s for timeCacher); a liveness probe for the self-sweeper; distinct = distinct (operation kind, canonical output) pairs Also: spans up to the largest Duration; re-adds of a present key with a shorter span; an Upsert of an expired, unswept key racing a Sweep over a large cache (either order leaves the key present).',
         "assumptions": ['clock readings are only known up to the bracket taken around each call; the model answers three-valued and the implementation must be inside', 'time.Now is monotone'],
     },
     "C11": {
         "theorems": ["SV.Props.C11.block_structure_matches_source", "SV.Props.C11.linearizable", "SV.Props.C11.read_window", "SV.Props.C11.read_never_misses_a_returned_write", "SV.Props.C11.reads_never_go_backwards", "SV.Props.C11.flush_is_invisible", "SV.Props.C11.write_takes_effect_at_one_block"],
         "modules": ["SV.Props.C11"],
         "runs": [{"component": "concp", "thorough_seeds": 2}],
-        "rule": "leveldb.DB and SerialDB, batch sizes 1-4: (1) forced schedules over 2-3 goroutines parked at every block boundary (verifPoint hooks) and replayed on the Lean block-interleaving model; (2) window probes: one operation parked at a hook (incl. inside the flush hand-over and between the batch reads) while probes run, history checked by porcupine; (3) randomised stress with delay injection at the hooks, checked by porcupine; distinct = distinct (operation kind, output) pairs",
+        "rule": "leveldb.DB and SerialDB, batch sizes 1-4: (1) forced schedules over 2-3 goroutines parked at every block boundary (verifPoint hooks) and replayed on the Lean block-interleaving model; (2) window probes: one operation parked at a hook (incl. inside the flush hand-over and between the batch reads) while probes run, history checked by porcupine; (3) randomised stress with delay injection at the hooks, checked by porcupine; distinct = distinct (operation kind, output) pairs Windows also stop a writer at the entry of the batch's own Put/Delete.",
         "assumptions": ["the all-schedules theorem is about the block-interleaving model (critical sections as atomic blocks, block structure tied to the source by regenerated facts and by forced schedules); Go memory-model races inside a block, fairness and goleveldb's internal concurrency are outside the model", "porcupine (linearizability checker) is a search aid for failing inputs, not a proof"],
     },
     "C10": {
@@ -171,7 +173,7 @@ PROPS = {
         "theorems": ["SV.Props.C14.counters_are_paired_with_map_updates", "SV.Props.C14.addTx_is_one_critical_section", "SV.Props.C14.eviction_removals_are_one_critical_section", "SV.Props.C14.no_orphan_under_any_interleaving_of_sections", "SV.Props.C14.quiescent_pool_has_no_unreachable_transaction", "SV.Props.C14.indexes_well_formed_under_any_interleaving", "SV.Props.C14.sequential_add_is_the_two_sections", "SV.Props.C14.two_sided_agreement_is_not_invariant", "SV.Props.C14.concurrent_adds_all_present_and_ordered", "SV.Props.C14.concurrent_adds_commute", "SV.Props.C14.selection_after_concurrent_adds", "SV.Props.C14.no_lock_cycle", "SV.Props.C14.components_are_single_critical_sections", "SV.Props.C14.concurrent_selection_nonce_runs", "SV.Props.C14.concurrent_selection_budgets", "SV.Props.C14.concurrent_adds_sorted"],
         "modules": ["SV.Props.C14"],
         "runs": [{"component": "conc14", "thorough_seeds": 2, "race": True}],
-        "rule": "concurrent workloads (4-8 goroutines, GOMAXPROCS 1/2/4/16) on TxCache (add/remove/select/iterate with eviction; adds only), ImmunityCache, LRU, sized LRU, FIFO cache, TimeCache and ConcurrentMap from a binary built with -race; yields injected at the txcache verifPoint hooks and inside host/session callbacks; oracles: no race / panic / deadlock (watchdog), C01/C02 on every concurrent selection, all concurrently added transactions present and ordered, immunized items survive, size bounds, quiescent CountTx/NumBytes; distinct = distinct (operation kind, output) pairs",
+        "rule": "concurrent workloads (4-8 goroutines, GOMAXPROCS 1/2/4/16) on TxCache (add/remove/select/iterate with eviction; adds only), ImmunityCache, LRU, sized LRU, FIFO cache, TimeCache and ConcurrentMap from a binary built with -race; yields injected at the txcache verifPoint hooks and inside host/session callbacks; oracles: no race / panic / deadlock (watchdog), C01/C02 on every concurrent selection, all concurrently added transactions present and ordered, immunized items survive, size bounds, quiescent CountTx/NumBytes; distinct = distinct (operation kind, output) pairs Also: iteration with a yielding callback against Clear on the immunity cache; Clear inside the mempool stress; at quiescence every pooled transaction must be in its sender's list.",
         "assumptions": ["absence of data races, panics and runtime deadlocks is exercised under the race detector, not proved", "the Lean part: lock-order and critical-section facts regenerated from the source, and the sequential theorems they make applicable to every schedule"],
     },
 }
